@@ -152,7 +152,8 @@ fn check_input(ctx: &mut Ctx, a01: &mut PropAcc, a02: &mut PropAcc, bytes: &[u8]
     });
     // ---- entry points 3 and 4
     let r_fm = catch(|| sh.from_mut_bytes(slot.bytes_mut()).map(|_| ()));
-    let r_wr = catch(|| sh.from_wrapped_bytes(slot.bytes()).map(|_| ()));
+    // FlatWrap validates once and maps the whole slice unchecked on every access: a second way to the same value
+    let r_wr = catch(|| sh.from_wrapped_bytes(slot.bytes()).map(|x| (x.value.0.clone(), x.size, x.size_of_val, x.as_bytes_len, x.walk.problems.clone())));
 
     let modified = slot.bytes() != bytes;
     let canary = slot.check();
@@ -240,6 +241,17 @@ fn check_input(ctx: &mut Ctx, a01: &mut PropAcc, a02: &mut PropAcc, bytes: &[u8]
                     }
                     if o.size > bytes.len() {
                         probs.push(format!("size() {} > slice {}", o.size, bytes.len()));
+                    }
+                    if let Ok(Ok((wv, wsize, wsov, wab, wprobs))) = &r_wr {
+                        if wv != &o.value || *wsize != o.size {
+                            probs.push(format!("through FlatWrap the value reads {:?} size {} instead", wv, wsize));
+                        }
+                        if *wsov > bytes.len() || *wab > bytes.len() {
+                            probs.push(format!("through FlatWrap size_of_val {} / as_bytes().len() {} > slice {}", wsov, wab, bytes.len()));
+                        }
+                        if let Some(p) = wprobs.first() {
+                            probs.push(format!("through FlatWrap: {}", p));
+                        }
                     }
                     if let Some(p) = probs.first() {
                         let what = p.split(|c: char| c.is_ascii_digit()).next().unwrap_or("").trim().replace(' ', "_");
